@@ -718,6 +718,311 @@ fn nl_as(v: &[u8]) -> &[u8] {
     v
 }
 
+// ---------------------------------------------------------------------------------------------------------------------
+// The `protected::*` type ALIASES of every object-API module (generichash, auth, onetimeauth, kdf, kx, sign, dryocbox,
+// dryocsecretbox, dryocstream, pwhash), used by NAME as key / nonce / output containers -- as the modules' documentation
+// does.  An alias is only a name for a container, so the result is the one obtained with the stack alias of the same name
+// and libsodium's: the same bytes AND the same length (where the API infers a length from the container, e.g. the digest
+// length of GenericHash, a wrong alias silently computes something else).
+// ---------------------------------------------------------------------------------------------------------------------
+
+/// a fresh container of the alias' own length holding the leading bytes of `src` (as much as fits)
+fn filled<T: MutBytes>(mut t: T, src: &[u8]) -> T {
+    let n = t.len().min(src.len());
+    t.as_mut_slice()[..n].copy_from_slice(&src[..n]);
+    t
+}
+
+fn alias_len(what: &str, libsodium: usize, stack: usize, heap: usize) -> Outcome {
+    if stack == libsodium && heap == libsodium {
+        return Ok(());
+    }
+    fail(
+        format!("{} bytes (libsodium)", libsodium),
+        format!("stack alias {} bytes, protected alias {} bytes", stack, heap),
+        format!("{}: length of a container made by the alias (new_byte_array)", what),
+    )
+}
+
+/// bytes and length of a result held in a protected alias against libsodium's and the stack alias'
+fn alias_eq(what: &str, libsodium: &[u8], stack: &[u8], protected: &[u8]) -> Outcome {
+    if stack != libsodium {
+        return fail(hex(libsodium), hex(stack), format!("{}: result in the stack alias vs libsodium", what));
+    }
+    if protected.len() != stack.len() {
+        return fail(
+            format!("{} bytes: {}", stack.len(), hex(stack)),
+            format!("{} bytes: {}", protected.len(), hex(protected)),
+            format!("{}: LENGTH of the result in the protected alias vs the stack alias of the same name / libsodium", what),
+        );
+    }
+    eq(&format!("{}: result in the protected alias vs the stack alias of the same name / libsodium", what), libsodium, protected)
+}
+
+/// key (32), m, seed (32), ska, skb, n (24), ctx (8), id, pw, salt (16)
+fn protected_alias_containers(i: &Input) -> Outcome {
+    use libsodium_sys as ffi;
+    let (key, m, seed) = (i.arr::<32>("key"), i.get("m").to_vec(), i.arr::<32>("seed"));
+    let (ska, skb, n, ctxb, id) = (i.arr::<32>("ska"), i.arr::<32>("skb"), i.arr::<24>("n"), i.arr::<8>("ctx"), i.num("id"));
+    let (pka, pkb) = (so::scalarmult_base(&ska), so::scalarmult_base(&skb));
+
+    // ---- generichash: the digest length is inferred from the output container, the key length from the key container
+    {
+        use dryoc::generichash::{self as gh, GenericHash};
+        let dl = unsafe { ffi::crypto_generichash_bytes() } as usize;
+        let kl = unsafe { ffi::crypto_generichash_keybytes() } as usize;
+        let want = so::generichash(dl, &m, &key[..kl.min(32)]).expect("generichash");
+        let want_nokey = so::generichash(dl, &m, &[]).expect("generichash");
+        let sk = filled(gh::Key::new_byte_array(), &key);
+        let pk = filled(gh::protected::Key::new_byte_array(), &key);
+        let lkey: Locked<gh::protected::Key> = granted(filled(gh::protected::Key::new_byte_array(), &key).mlock(), "mlock")?;
+        let rokey = must_ok(granted(filled(gh::protected::Key::new_byte_array(), &key).mlock(), "mlock")?.mprotect_readonly(), "mprotect_readonly")?;
+        let stack: gh::Hash = must_ok(GenericHash::hash(&m, Some(&sk)), "GenericHash::hash -> generichash::Hash")?;
+        let heap: gh::protected::Hash = must_ok(GenericHash::hash(&m, Some(&pk)), "GenericHash::hash -> generichash::protected::Hash")?;
+        alias_eq("GenericHash::hash (key in generichash::protected::Key) -> generichash::protected::Hash", &want, stack.as_slice(), heap.as_slice())?;
+        let locked: Locked<gh::protected::Hash> = must_ok(GenericHash::hash(&m, Some(&lkey)), "GenericHash::hash -> Locked<protected::Hash>")?;
+        alias_eq("GenericHash::hash (key in Locked<protected::Key>) -> Locked<generichash::protected::Hash>", &want, stack.as_slice(), locked.as_slice())?;
+        let locked: Locked<gh::protected::Hash> =
+            must_ok(GenericHash::hash(&granted(HeapBytes::from_slice_into_readonly_locked(&m), "from_slice_into_readonly_locked")?, Some(&rokey)), "GenericHash::hash (read-only locked input and key)")?;
+        alias_eq("GenericHash::hash (read-only locked input and key, as in the module documentation) -> Locked<generichash::protected::Hash>", &want, stack.as_slice(), locked.as_slice())?;
+        // key in the stack alias, output in the protected one and vice versa
+        let heap: gh::protected::Hash = must_ok(GenericHash::hash(&m, Some(&sk)), "GenericHash::hash (stack key) -> protected::Hash")?;
+        alias_eq("GenericHash::hash (key in generichash::Key) -> generichash::protected::Hash", &want, stack.as_slice(), heap.as_slice())?;
+        let stack2: gh::Hash = must_ok(GenericHash::hash(&m, Some(&pk)), "GenericHash::hash (protected key) -> Hash")?;
+        alias_eq("GenericHash::hash (key in generichash::protected::Key) -> generichash::Hash", &want, stack.as_slice(), stack2.as_slice())?;
+        // no key
+        let stack_nk: gh::Hash = must_ok(GenericHash::hash::<_, gh::Key, _>(&m, None), "GenericHash::hash (no key) -> Hash")?;
+        let heap_nk: gh::protected::Hash = must_ok(GenericHash::hash::<_, gh::protected::Key, _>(&m, None), "GenericHash::hash (no key) -> protected::Hash")?;
+        alias_eq("GenericHash::hash (no key) -> generichash::protected::Hash", &want_nokey, stack_nk.as_slice(), heap_nk.as_slice())?;
+        // incremental
+        let cut = m.len() / 3;
+        let mut h = must_ok(GenericHash::new(Some(&sk)), "GenericHash::new")?;
+        h.update(&m[..cut]);
+        h.update(&m[cut..]);
+        let stack_i: gh::Hash = must_ok(h.finalize(), "GenericHash::finalize -> Hash")?;
+        let mut h = must_ok(GenericHash::new(Some(&lkey)), "GenericHash::new (locked key)")?;
+        h.update(&m[..cut]);
+        h.update(&m[cut..]);
+        let locked_i: Locked<gh::protected::Hash> = must_ok(h.finalize(), "GenericHash::finalize -> Locked<protected::Hash>")?;
+        alias_eq("GenericHash::new / update / finalize -> Locked<generichash::protected::Hash>", &want, stack_i.as_slice(), locked_i.as_slice())?;
+        let mut h = must_ok(GenericHash::new(Some(&pk)), "GenericHash::new (heap key)")?;
+        h.update(&m);
+        let heap_i: gh::protected::Hash = must_ok(h.finalize(), "GenericHash::finalize -> protected::Hash")?;
+        alias_eq("GenericHash::new / update / finalize -> generichash::protected::Hash", &want, stack_i.as_slice(), heap_i.as_slice())?;
+    }
+
+    // ---- auth / onetimeauth
+    {
+        use dryoc::auth::{self, Auth};
+        let want = so::auth(&m, &key);
+        let stack: auth::Mac = Auth::compute(filled(auth::Key::new_byte_array(), &key), &m);
+        let heap: auth::protected::Mac = Auth::compute(filled(auth::protected::Key::new_byte_array(), &key), &m);
+        alias_eq("Auth::compute (auth::protected::Key) -> auth::protected::Mac", &want, stack.as_slice(), heap.as_slice())?;
+        let lkey: Locked<auth::protected::Key> = granted(filled(auth::protected::Key::new_byte_array(), &key).mlock(), "mlock")?;
+        let locked: Locked<auth::protected::Mac> = Auth::compute(lkey, &m);
+        alias_eq("Auth::compute (Locked<auth::protected::Key>) -> Locked<auth::protected::Mac>", &want, stack.as_slice(), locked.as_slice())?;
+        let mut a = Auth::new(filled(auth::protected::Key::new_byte_array(), &key));
+        a.update(&m);
+        let inc: Locked<auth::protected::Mac> = a.finalize();
+        alias_eq("Auth::new / update / finalize -> Locked<auth::protected::Mac>", &want, stack.as_slice(), inc.as_slice())?;
+        must_ok(Auth::compute_and_verify(&heap, filled(auth::protected::Key::new_byte_array(), &key), &m), "Auth::compute_and_verify (MAC in auth::protected::Mac)")?;
+
+        use dryoc::onetimeauth::{self as ota, OnetimeAuth};
+        let want = so::onetimeauth(&m, &key);
+        let stack: ota::Mac = OnetimeAuth::compute(filled(ota::Key::new_byte_array(), &key), &m);
+        let heap: ota::protected::Mac = OnetimeAuth::compute(filled(ota::protected::Key::new_byte_array(), &key), &m);
+        alias_eq("OnetimeAuth::compute (onetimeauth::protected::Key) -> onetimeauth::protected::Mac", &want, stack.as_slice(), heap.as_slice())?;
+        let lkey: Locked<ota::protected::Key> = granted(filled(ota::protected::Key::new_byte_array(), &key).mlock(), "mlock")?;
+        let locked: Locked<ota::protected::Mac> = OnetimeAuth::compute(lkey, &m);
+        alias_eq("OnetimeAuth::compute (Locked<protected::Key>) -> Locked<onetimeauth::protected::Mac>", &want, stack.as_slice(), locked.as_slice())?;
+    }
+
+    // ---- kdf
+    {
+        use dryoc::kdf::{self, Kdf};
+        let want = so::kdf_derive(unsafe { ffi::crypto_kdf_keybytes() } as usize, id, &ctxb, &key).expect("subkey");
+        let ks: kdf::StackKdf = Kdf::from_parts(filled(kdf::Key::new_byte_array(), &key), filled(kdf::Context::new_byte_array(), &ctxb));
+        let stack: kdf::Key = must_ok(ks.derive_subkey(id), "StackKdf::derive_subkey -> kdf::Key")?;
+        let kl: kdf::protected::LockedKdf = Kdf::from_parts(
+            granted(filled(kdf::protected::Key::new_byte_array(), &key).mlock(), "mlock")?,
+            granted(filled(kdf::protected::Context::new_byte_array(), &ctxb).mlock(), "mlock")?,
+        );
+        let heap: kdf::protected::Key = must_ok(kl.derive_subkey(id), "LockedKdf::derive_subkey -> kdf::protected::Key")?;
+        alias_eq("kdf::protected::LockedKdf::derive_subkey -> kdf::protected::Key", &want, stack.as_slice(), heap.as_slice())?;
+        let locked: Locked<kdf::protected::Key> = must_ok(kl.derive_subkey(id), "LockedKdf::derive_subkey -> Locked<kdf::protected::Key>")?;
+        alias_eq("kdf::protected::LockedKdf::derive_subkey -> Locked<kdf::protected::Key>", &want, stack.as_slice(), locked.as_slice())?;
+    }
+
+    // ---- kx
+    {
+        use dryoc::keypair::KeyPair;
+        use dryoc::kx::{self, Session};
+        let (wrx, wtx) = so::kx_client(&pka, &ska, &pkb).expect("honest keys");
+        let kp_s: kx::KeyPair = KeyPair { public_key: filled(kx::PublicKey::new_byte_array(), &pka), secret_key: filled(kx::SecretKey::new_byte_array(), &ska) };
+        let ss: kx::StackSession = must_ok(Session::new_client(&kp_s, &filled(kx::PublicKey::new_byte_array(), &pkb)), "StackSession::new_client")?;
+        let kp_l: kx::protected::LockedKeyPair = KeyPair {
+            public_key: granted(filled(kx::protected::PublicKey::new_byte_array(), &pka).mlock(), "mlock")?,
+            secret_key: granted(filled(kx::protected::SecretKey::new_byte_array(), &ska).mlock(), "mlock")?,
+        };
+        let peer: Locked<kx::protected::PublicKey> = granted(filled(kx::protected::PublicKey::new_byte_array(), &pkb).mlock(), "mlock")?;
+        let ls: kx::protected::LockedSession = must_ok(Session::new_client(&kp_l, &peer), "LockedSession::new_client")?;
+        alias_eq("kx::protected::LockedSession::new_client (LockedKeyPair) rx", &wrx, ss.rx_as_slice(), ls.rx_as_slice())?;
+        alias_eq("kx::protected::LockedSession::new_client (LockedKeyPair) tx", &wtx, ss.tx_as_slice(), ls.tx_as_slice())?;
+        let kp_r: kx::protected::LockedROKeyPair = KeyPair {
+            public_key: must_ok(granted(filled(kx::protected::PublicKey::new_byte_array(), &pka).mlock(), "mlock")?.mprotect_readonly(), "mprotect_readonly")?,
+            secret_key: must_ok(granted(filled(kx::protected::SecretKey::new_byte_array(), &ska).mlock(), "mlock")?.mprotect_readonly(), "mprotect_readonly")?,
+        };
+        let peer_r = must_ok(granted(filled(kx::protected::PublicKey::new_byte_array(), &pkb).mlock(), "mlock")?.mprotect_readonly(), "mprotect_readonly")?;
+        let hs: Session<kx::protected::SessionKey> = must_ok(Session::new_client(&kp_r, &peer_r), "Session<kx::protected::SessionKey>::new_client")?;
+        let (rx, tx) = hs.into_parts();
+        alias_eq("Session<kx::protected::SessionKey>::new_client (LockedROKeyPair) rx", &wrx, ss.rx_as_slice(), rx.as_slice())?;
+        alias_eq("Session<kx::protected::SessionKey>::new_client (LockedROKeyPair) tx", &wtx, ss.tx_as_slice(), tx.as_slice())?;
+    }
+
+    // ---- sign
+    {
+        use dryoc::sign::{self, SigningKeyPair};
+        let (pk, sk) = so::sign_seed_keypair(&seed);
+        let want = so::sign(&m, &sk);
+        let kp_s: SigningKeyPair<sign::PublicKey, sign::SecretKey> = SigningKeyPair::from_seed(&seed);
+        let stack: sign::VecSignedMessage = must_ok(kp_s.sign_with_defaults(m.clone()), "sign_with_defaults")?;
+        let kp_l: sign::protected::LockedSigningKeyPair = SigningKeyPair::from_seed(&lk(&seed)?);
+        alias_eq("sign::protected::LockedSigningKeyPair::from_seed public key", &pk, kp_s.public_key.as_slice(), kp_l.public_key.as_slice())?;
+        alias_eq("sign::protected::LockedSigningKeyPair::from_seed secret key", &sk, kp_s.secret_key.as_slice(), kp_l.secret_key.as_slice())?;
+        let msg: Locked<sign::protected::Message> = granted(sign::protected::Message::from_slice_into_locked(&m), "from_slice_into_locked")?;
+        let signed: sign::protected::LockedSignedMessage = must_ok(kp_l.sign(msg), "LockedSigningKeyPair::sign -> LockedSignedMessage")?;
+        alias_eq("sign::protected::LockedSignedMessage::to_vec", &want, &stack.to_vec(), &signed.to_vec())?;
+        must_ok(signed.verify(&kp_l.public_key), "LockedSignedMessage::verify")?;
+        let (sig, body) = signed.into_parts();
+        alias_eq("sign::protected::LockedSignedMessage signature part", &want[..64], &stack.to_vec()[..64], sig.as_slice())?;
+        alias_eq("sign::protected::LockedSignedMessage message part", &m, &stack.to_vec()[64..], body.as_slice())?;
+        let heap_signed: sign::SignedMessage<sign::protected::Signature, sign::protected::Message> =
+            must_ok(kp_l.sign(sign::protected::Message::from(&m[..])), "LockedSigningKeyPair::sign -> SignedMessage<protected::Signature, protected::Message>")?;
+        alias_eq("SignedMessage<sign::protected::Signature, sign::protected::Message>::to_vec", &want, &stack.to_vec(), &heap_signed.to_vec())?;
+        must_ok(heap_signed.verify(&filled(sign::protected::PublicKey::new_byte_array(), &pk)), "SignedMessage::verify (sign::protected::PublicKey)")?;
+    }
+
+    // ---- dryocbox / dryocsecretbox
+    {
+        use dryoc::dryocbox::{self as bx, DryocBox};
+        let want = so::box_easy(&m, &n, &pkb, &ska).expect("honest keys");
+        let stack: bx::VecBox = must_ok(
+            DryocBox::encrypt(&m, &filled(bx::Nonce::new_byte_array(), &n), &filled(bx::PublicKey::new_byte_array(), &pkb), &filled(bx::SecretKey::new_byte_array(), &ska)),
+            "VecBox::encrypt",
+        )?;
+        let (pn, ppk, psk) = (
+            filled(bx::protected::Nonce::new_byte_array(), &n),
+            granted(filled(bx::protected::PublicKey::new_byte_array(), &pkb).mlock(), "mlock")?,
+            granted(filled(bx::protected::SecretKey::new_byte_array(), &ska).mlock(), "mlock")?,
+        );
+        let locked: bx::protected::LockedBox = must_ok(DryocBox::encrypt(&m, &pn, &ppk, &psk), "dryocbox::protected::LockedBox::encrypt")?;
+        alias_eq("dryocbox::protected::LockedBox::encrypt (protected::Nonce, Locked<protected::PublicKey / SecretKey>)", &want, &stack.to_vec(), &locked.to_vec())?;
+        let kp_b: bx::protected::LockedKeyPair = dryoc::keypair::KeyPair {
+            public_key: granted(filled(bx::protected::PublicKey::new_byte_array(), &pkb).mlock(), "mlock")?,
+            secret_key: granted(filled(bx::protected::SecretKey::new_byte_array(), &skb).mlock(), "mlock")?,
+        };
+        let p: LockedBytes = must_ok(locked.decrypt(&pn, &filled(bx::protected::PublicKey::new_byte_array(), &pka), &kp_b.secret_key), "LockedBox::decrypt")?;
+        eq("dryocbox::protected::LockedBox::decrypt (LockedKeyPair's secret key)", &m, p.as_slice())?;
+        let hb: DryocBox<bx::protected::PublicKey, bx::protected::Mac, HeapBytes> = must_ok(DryocBox::encrypt(&m, &pn, &ppk, &psk), "DryocBox<protected::PublicKey, protected::Mac, HeapBytes>::encrypt")?;
+        alias_eq("DryocBox<dryocbox::protected::PublicKey, dryocbox::protected::Mac, HeapBytes>::encrypt", &want, &stack.to_vec(), &hb.to_vec())?;
+
+        use dryoc::dryocsecretbox::{self as sb, DryocSecretBox};
+        let want = so::secretbox_easy(&m, &n, &key);
+        let stack: sb::VecBox = DryocSecretBox::encrypt(&m, &filled(sb::Nonce::new_byte_array(), &n), &filled(sb::Key::new_byte_array(), &key));
+        let (pn, pk) = (
+            granted(filled(sb::protected::Nonce::new_byte_array(), &n).mlock(), "mlock")?,
+            granted(filled(sb::protected::Key::new_byte_array(), &key).mlock(), "mlock")?,
+        );
+        let locked: sb::protected::LockedBox = DryocSecretBox::encrypt(&m, &pn, &pk);
+        alias_eq("dryocsecretbox::protected::LockedBox::encrypt (Locked<protected::Nonce>, Locked<protected::Key>)", &want, &stack.to_vec(), &locked.to_vec())?;
+        let hb: DryocSecretBox<sb::protected::Mac, HeapBytes> = DryocSecretBox::encrypt(&m, &filled(sb::protected::Nonce::new_byte_array(), &n), &filled(sb::protected::Key::new_byte_array(), &key));
+        alias_eq("DryocSecretBox<dryocsecretbox::protected::Mac, HeapBytes>::encrypt", &want, &stack.to_vec(), &hb.to_vec())?;
+        let p: LockedBytes = must_ok(locked.decrypt(&pn, &pk), "dryocsecretbox::protected::LockedBox::decrypt")?;
+        eq("dryocsecretbox::protected::LockedBox::decrypt", &m, p.as_slice())?;
+    }
+
+    // ---- dryocstream
+    {
+        use dryoc::dryocstream::{self as st, DryocStream, Tag};
+        let pkey: Locked<st::protected::Key> = granted(filled(st::protected::Key::new_byte_array(), &key).mlock(), "mlock")?;
+        let (mut push, header): (_, st::protected::Header) = DryocStream::init_push(&pkey);
+        let c: LockedBytes = must_ok(push.push(&m, None, Tag::MESSAGE), "DryocStream::push")?;
+        let hl = unsafe { ffi::crypto_secretstream_xchacha20poly1305_headerbytes() } as usize;
+        if header.len() != hl {
+            return fail(hl.to_string(), header.len().to_string(), "DryocStream::init_push -> dryocstream::protected::Header: header length");
+        }
+        let hdr: [u8; 24] = header.as_slice().try_into().unwrap();
+        let mut sl = so::stream_init_pull(&hdr, &key);
+        match so::stream_pull(&mut sl, c.as_slice(), None) {
+            Some((p, _)) => eq("libsodium pull of DryocStream::push (Locked<dryocstream::protected::Key>, protected::Header)", &m, &p)?,
+            None => return fail("Ok", "Err", "libsodium rejects DryocStream::push output (key in Locked<dryocstream::protected::Key>, header in protected::Header)"),
+        }
+        let header2 = [0x42u8; 24];
+        let mut sp = so::stream_init_pull(&header2, &key);
+        let c2 = so::stream_push(&mut sp, &m, None, 0);
+        let mut pull = DryocStream::init_pull(&filled(st::protected::Key::new_byte_array(), &key), &filled(st::protected::Header::new_byte_array(), &header2));
+        let (p, _) = must_ok(pull.pull_to_vec(&c2, None), "DryocStream::pull_to_vec (protected::Key, protected::Header)")?;
+        let mut pull_s = DryocStream::init_pull(&filled(st::Key::new_byte_array(), &key), &filled(st::Header::new_byte_array(), &header2));
+        let (p_s, _) = must_ok(pull_s.pull_to_vec(&c2, None), "DryocStream::pull_to_vec (Key, Header)")?;
+        alias_eq("DryocStream::init_pull (dryocstream::protected::Key, protected::Header) + pull", &m, &p_s, &p)?;
+    }
+
+    // ---- pwhash (resizable aliases): minimal costs
+    {
+        use dryoc::pwhash::{self as ph, Config, PwHash};
+        let (pw, salt) = (i.get("pw").to_vec(), i.arr::<16>("salt"));
+        let want = so::pwhash(32, &pw, &salt, 1, 8192, so::ALG_ARGON2ID13).expect("minimal parameters");
+        let cfg = || Config::interactive().with_opslimit(1).with_memlimit(8192);
+        let stack: ph::VecPwHash = must_ok(PwHash::hash_with_salt(&pw, ph::Salt::from(&salt[..]), cfg()), "VecPwHash::hash_with_salt")?;
+        let lsalt: Locked<ph::protected::Salt> = granted(ph::protected::Salt::from_slice_into_locked(&salt), "from_slice_into_locked")?;
+        let locked: ph::protected::LockedPwHash = must_ok(PwHash::hash_with_salt(&pw, lsalt, cfg()), "pwhash::protected::LockedPwHash::hash_with_salt")?;
+        must_ok(locked.verify(&pw), "LockedPwHash::verify")?;
+        let (sh, _, _) = stack.into_parts();
+        let (lh, ls, _) = locked.into_parts();
+        alias_eq("pwhash::protected::LockedPwHash::hash_with_salt hash", &want, &sh, lh.as_slice())?;
+        eq("pwhash::protected::LockedPwHash stored salt", &salt, ls.as_slice())?;
+        let heap: PwHash<ph::protected::Hash, ph::protected::Salt> = must_ok(PwHash::hash_with_salt(&pw, ph::protected::Salt::from(&salt[..]), cfg()), "PwHash<protected::Hash, protected::Salt>::hash_with_salt")?;
+        let (hh, _, _) = heap.into_parts();
+        alias_eq("PwHash<pwhash::protected::Hash, pwhash::protected::Salt>::hash_with_salt hash", &want, &sh, hh.as_slice())?;
+    }
+
+    // ---- lengths of every fixed-length alias pair (stack alias, protected alias of the same name) vs libsodium's constant
+    macro_rules! len_of {
+        ($m:ident, $name:ident, $c:ident) => {{
+            let s = <dryoc::$m::$name>::new_byte_array();
+            let p = <dryoc::$m::protected::$name>::new_byte_array();
+            alias_len(concat!(stringify!($m), "::", stringify!($name), " / ", stringify!($m), "::protected::", stringify!($name)), unsafe { ffi::$c() } as usize, s.len(), p.len())?;
+            let l: Locked<dryoc::$m::protected::$name> = granted(<dryoc::$m::protected::$name>::new_locked(), "new_locked")?;
+            alias_len(concat!("Locked<", stringify!($m), "::protected::", stringify!($name), ">"), unsafe { ffi::$c() } as usize, s.len(), l.len())?;
+        }};
+    }
+    len_of!(generichash, Hash, crypto_generichash_bytes);
+    len_of!(generichash, Key, crypto_generichash_keybytes);
+    len_of!(auth, Key, crypto_auth_keybytes);
+    len_of!(auth, Mac, crypto_auth_bytes);
+    len_of!(onetimeauth, Key, crypto_onetimeauth_keybytes);
+    len_of!(onetimeauth, Mac, crypto_onetimeauth_bytes);
+    len_of!(kdf, Key, crypto_kdf_keybytes);
+    len_of!(kdf, Context, crypto_kdf_contextbytes);
+    len_of!(kx, SessionKey, crypto_kx_sessionkeybytes);
+    len_of!(kx, PublicKey, crypto_kx_publickeybytes);
+    len_of!(kx, SecretKey, crypto_kx_secretkeybytes);
+    len_of!(sign, PublicKey, crypto_sign_publickeybytes);
+    len_of!(sign, SecretKey, crypto_sign_secretkeybytes);
+    len_of!(sign, Signature, crypto_sign_bytes);
+    len_of!(dryocbox, PublicKey, crypto_box_publickeybytes);
+    len_of!(dryocbox, SecretKey, crypto_box_secretkeybytes);
+    len_of!(dryocbox, Nonce, crypto_box_noncebytes);
+    len_of!(dryocbox, Mac, crypto_box_macbytes);
+    len_of!(dryocsecretbox, Key, crypto_secretbox_keybytes);
+    len_of!(dryocsecretbox, Nonce, crypto_secretbox_noncebytes);
+    len_of!(dryocsecretbox, Mac, crypto_secretbox_macbytes);
+    len_of!(dryocstream, Key, crypto_secretstream_xchacha20poly1305_keybytes);
+    len_of!(dryocstream, Header, crypto_secretstream_xchacha20poly1305_headerbytes);
+    len_of!(dryocstream, Nonce, crypto_stream_chacha20_ietf_noncebytes);
+    Ok(())
+}
+
 pub const C18: Registry = &[
     ("borrowed_slice_containers", borrowed_slice_containers),
     ("heap_conversions", heap_conversions),
@@ -732,6 +1037,7 @@ pub const C18: Registry = &[
     ("sign_containers", sign_containers),
     ("mac_containers", mac_containers),
     ("stream_containers", stream_containers),
+    ("protected_alias_containers", protected_alias_containers),
 ];
 
 pub fn c18(ctx: &mut Ctx) -> Search {
@@ -764,6 +1070,25 @@ pub fn c18(ctx: &mut Ctx) -> Search {
                 "borrowed_slice_containers",
                 Input::new().b("k", &k).b("n", &n).b("ska", &ska).b("skb", &skb).b("m", &m).b("tail", &tail),
             )?;
+        }
+    }
+    // the protected::* aliases of every module by name (own generator state)
+    {
+        let mut rng4 = Rng::new(0xA11A5 + t as u64);
+        let mlens: Vec<usize> = if t { vec![0, 1, 18, 64, 127, 128, 129, 300, 1000, 4097] } else { vec![0, 18, 129, 300] };
+        for (j, mlen) in mlens.into_iter().enumerate() {
+            let inp = Input::new()
+                .b("key", &rng4.arr::<32>())
+                .b("m", &rng4.bytes(mlen))
+                .b("seed", &rng4.arr::<32>())
+                .b("ska", &rng4.arr::<32>())
+                .b("skb", &rng4.arr::<32>())
+                .b("n", &rng4.arr::<24>())
+                .b("ctx", &rng4.arr::<8>())
+                .u("id", [0u64, 1, 1 << 32, u64::MAX][j % 4])
+                .b("pw", &rng4.bytes(1 + j % 9))
+                .b("salt", &rng4.arr::<16>());
+            ctx.run("protected_alias_containers", inp)?;
         }
     }
     let rounds = if t { 24 } else { 4 };
